@@ -304,6 +304,18 @@ OwnerNext(t) ==
              /\ cur' = t
              /\ nact' = nact
              /\ o' = Obs(DispLine(h.to, e, ev[e].ty, d.out, 0, 0, TRUE), d.E, nev, d.H, d.Q)
+     ELSE IF h.kind = "sync"
+     THEN \* sync scenario handler: called in place, in the owner's task and stretch, with the handler context set (HEnter line)
+          /\ nact < MaxAct
+          /\ LET E1 == [ev EXCEPT ![e] = SetRes(@, h.id, b, "started", "", "none")]
+                 a == nact + 1
+                 T1 == [task EXCEPT ![t].pc = "sync", ![t].todo = Tail(@), ![t].fh = h.id, ![t].fa = a,
+                                    ![HT(a)] = [T0 EXCEPT !.pc = "sync", !.b = b, !.e = e, !.h = h.id, !.owner = t, !.bud = Budget, !.lvl = ev[e].lvl]] IN
+             /\ ev' = E1 /\ nact' = a /\ task' = T1
+             /\ cur' = t
+             /\ o' = Obs(Line("HEnter") @@ [act |-> a, b |-> b, e |-> e, h |-> h.id, byk |-> TaskLabelKind(t), bya |-> IF t[1] = "h" THEN t[2] ELSE 0,
+                                           rb |-> Last(ev[e].path), sync |-> TRUE, tmo |-> -1], E1, nev, hist, q)
+          /\ UNCHANGED <<q, unf, hist, running>>
      ELSE \* async scenario handler: result started, handler task created with a copy of the context, wait_for suspends
           /\ nact < MaxAct
           /\ ev' = [ev EXCEPT ![e] = SetRes(@, h.id, b, "started", "", "none")]
@@ -322,6 +334,33 @@ FwdReturn(t) ==
      ev' = [ev EXCEPT ![e] = IF task[t].out = "ok" THEN SetRes(@, h, b, "completed", "", "ev:" \o ToString(e))
                              ELSE SetRes(@, h, b, "error", "X:" \o task[t].out, "none")]
   /\ task' = [task EXCEPT ![t].pc = "mon", ![t].out = ""]
+  /\ cur' = NoTask
+  /\ UNCHANGED <<nev, q, unf, shut, hist, running, idle, semv, depth, lockq, nact, o>>
+
+\* a sync scenario handler runs inside its owner's stretch: it can dispatch, return or raise, never suspend
+InSync(t) == cur = t /\ task[t].pc = "sync"
+SyncDispatch(t, b, ty) ==
+  /\ InSync(t) /\ nev < MaxEv
+  /\ LET a == task[t].fa  x == task[HT(a)] IN
+     /\ x.bud > 0 /\ x.lvl < MaxDepth
+     /\ LET e == nev + 1
+            d == DispatchFx(b, e, x.e, x.h, x.b, TRUE, ev, TRUE, ty, x.lvl + 1) IN
+        /\ nev' = e
+        /\ ev' = d.E /\ q' = d.Q /\ unf' = d.U /\ hist' = d.H /\ running' = d.R
+        /\ task' = [d.T EXCEPT ![HT(a)].bud = @ - 1, ![HT(a)].kids = Append(@, IF d.out = "ok" THEN e ELSE 0)]
+        /\ o' = Obs(DispLine(b, e, ty, d.out, a, 0, FALSE), d.E, e, d.H, d.Q)
+  /\ UNCHANGED <<shut, idle, semv, depth, lockq, nact, cur>>
+SyncFinish(t, out) ==
+  /\ InSync(t) /\ out \in {"ret"} \cup (IF WithErrors THEN {"raise"} ELSE {})
+  /\ task' = [task EXCEPT ![t].pc = "syncret", ![HT(task[t].fa)].pc = "done", ![HT(task[t].fa)].out = out]
+  /\ o' = Obs(Line("HExit") @@ [act |-> task[t].fa, out |-> out], ev, nev, hist, q)
+  /\ UNCHANGED <<nev, ev, q, unf, shut, hist, running, idle, semv, depth, lockq, nact, cur>>
+SyncReturn(t) ==   \* back in execute_handler: result recorded, then `await monitor_task` (one hop)
+  /\ cur = t /\ task[t].pc = "syncret"
+  /\ LET b == task[t].fb  e == task[t].fe  a == task[t].fa IN
+     ev' = [ev EXCEPT ![e] = IF task[HT(a)].out = "raise" THEN SetRes(@, task[t].fh, b, "error", "E:a" \o ToString(a), "none")
+                             ELSE SetRes(@, task[t].fh, b, "completed", "", "none")]
+  /\ task' = [task EXCEPT ![t].pc = "mon"]
   /\ cur' = NoTask
   /\ UNCHANGED <<nev, q, unf, shut, hist, running, idle, semv, depth, lockq, nact, o>>
 
@@ -531,6 +570,7 @@ DIdleRecheck(i) ==
 \* ------------------------------------------------------------------------
 NextCore ==
   \/ \E b \in B : RLStart(b) \/ RLTake(b) \/ RLPollIdle(b) \/ RLBegin(b) \/ RLGranted(b)
+  \/ \E t \in Tasks : SyncFinish(t, "ret") \/ SyncFinish(t, "raise") \/ SyncReturn(t) \/ (\E b \in B : \E ty \in Range(Types) : SyncDispatch(t, b, ty))
   \/ \E t \in Tasks : FwdReturn(t) \/ OwnerAbort(t) \/ ProcSelect(t) \/ OwnerNext(t) \/ OwnerResume(t) \/ OwnerTail(t) \/ OwnerEpilogue(t)
   \/ \E a \in 1..MaxAct :
         \/ HStart(a) \/ HWake(a) \/ HAwaitDone(a) \/ InlineSpin(a) \/ SpinWake(a) \/ InlineGiveUp(a)
